@@ -3,8 +3,9 @@ dominators, post-dominators."""
 
 
 class CFG:
-    def __init__(self, body):
+    def __init__(self, body, removed=frozenset()):
         self.body = body
+        self.removed = removed
         n = len(body.blocks)
         self.n = n
         self.succ = [[] for _ in range(n)]
@@ -13,7 +14,7 @@ class CFG:
             if b.cleanup:
                 continue
             for s in b.term.succs():
-                if s is None or body.blocks[s].cleanup:
+                if s is None or body.blocks[s].cleanup or (b.idx, s) in removed:
                     continue
                 if s not in self.succ[b.idx]:
                     self.succ[b.idx].append(s)
